@@ -3,6 +3,7 @@
     [spec_export_names] / [spec_import_needs] (extracted) is done by ./check C03 on every run. *)
 From Coq Require Import List.
 From WacV Require Import Str Semver Names Graph Wiring WiringSpec EncodeModel WiringSim WiringCorrect AggProofs WiringWitness WiringImportsSpec.
+From WacV Require ValidEncInv ValidFinal.
 Import ListNotations.
 Local Open Scope nat_scope.
 
@@ -41,14 +42,26 @@ Theorem exports_spec : forall e u g dc tau ord st names w,
 Proof. exact WiringCorrect.exports_spec. Qed.
 Print Assumptions exports_spec.
 
-(** without "a definition has one export name" the statement is false of the faithful model (and of the code) *)
-Theorem exports_spec_multi_named_definition_refuted :
-  match encoded ops_def_two_names true with
-  | Some (dec, spec, dd) => dd = [] /\ dec <> spec
-  | None => False
-  end.
-Proof. exact def_two_names_refutes. Qed.
-Print Assumptions exports_spec_multi_named_definition_refuted.
+(** for EVERY graph built through the API the side conditions about the graph hold ([EncInv] incl. "a definition
+    has one export name": [export(definition, other_name)] renames the definition, C01 [defs_single_reachable]):
+    the exports of the output are exactly the export map of the graph, with no exception for definitions *)
+Theorem exports_spec_reachable : forall e u ops dc tau ord st names w,
+  ValidEncInv.UnivOK e u ->
+  topo_orderb (run u ops) ord = true ->
+  encode_with_order e u (run u ops) dc tau ord = ROk (st, names) ->
+  (forall p, In p (e_dedup st) -> fst p = snd p) ->
+  decode_wiring names (e_log st) = Some w ->
+  forall nm s, In (nm, s) (map export_sig (w_exports w)) <-> In (nm, s) (spec_export_names e (run u ops)).
+Proof. exact ValidFinal.exports_spec_reachable. Qed.
+Print Assumptions exports_spec_reachable.
+
+(** regression instance of the repaired defect ([define_type foo; export(foo, bar)], replayed on the real code on
+    every run): the export map is [bar -> the definition] alone and the output exports exactly that *)
+Theorem exports_spec_renamed_definition :
+  exports (run w_universe ops_def_two_names) = [(6%N, 0)] /\
+  exists w, encoded ops_def_two_names true = Some (w, w, []) /\ length (w_exports w) = 1.
+Proof. exact def_renamed_instance. Qed.
+Print Assumptions exports_spec_renamed_definition.
 
 (** the import items the model encoder emits itself ([simports]: all [IImport] items; the type encoder's
     imports of [use]d interfaces are [IDepImport] items) are exactly [spec_imports]: the canonical name of every
